@@ -346,6 +346,11 @@ def run(ctx):
         if s and rr:
             ctx.guarded("C07.b", rule_b, words, s, rr)
         ctx.guarded("C07.d", rule_d, send, recv, body, new)
+    else:
+        def late(c):
+            F = c.F
+            return rule_d(c, method(F, "send"), method(F, "recv"), None, method(F, "new"))
+        ctx.guarded("C07.d", late)
     ctx.guarded("C07.c", rule_c)
     ctx.note("not decided: the happens-before theorem itself — the rules check that the declared orderings are the ones the standard "
              "release/acquire argument needs (release sequence through RMWs), not that no execution races")
